@@ -144,6 +144,8 @@ TidShownIffActive ==
 CpuMirrorsThreads ==
    \A c \in Cpus :
       /\ (\E v \in 1..NT : <<"c", c, 3, v>> \in CpuCells) <=> (RunningOn(c, thState, thCpu) # {})
+      \* (thread ids are unique inside a loom only: the TID shown is the one of SOME thread running there)
       /\ \A t \in Threads : (<<"c", c, 2, sys.threads[t].tid>> \in CpuCells) =>
-                               (thCpu[t] = c /\ thState[t] = "running")
+                               \E u \in Threads : /\ sys.threads[u].tid = sys.threads[t].tid
+                                                  /\ thCpu[u] = c /\ thState[u] = "running"
 =============================================================================
